@@ -37,6 +37,27 @@ protocol and evidence are as designed in section 2. Deviations, all in the direc
 """
 
 
+ADDITIONS = """### 10.5 What the seeded rounds changed in the checks
+
+Forty changes from two independent rounds (fresh sub-agents, property text only) were confirmed and run; 34 were detected by the quick tier as first built,
+two only by the thorough tier, four not at all. Every miss pointed at a *class* of input the generator did not produce, and the checks were extended for the
+class, not for the patch:
+
+* **State carried between calls.** C01, C02 (`pre`: the same / other expressions evaluated first by fresh engines - module-level caches), C06 (`hist`: the final
+  electorate reached through add_agent / remove_agent / set_agent_weight / set_strategy with earlier votes and statistics calls, plus a history-independence oracle
+  against a fresh colony), C11 (earlier folds, valid and invalid, on the same validator), C12 (earlier renders on the same Ribosome, including renders that fail
+  half-way inside an include or a filter), C16 and C19 (a second execution on the same object must equal the first), C18 (a second call on the same loop / swarm / nucleus).
+* **Inputs the stubs held constant.** C07: the stub agents' reported confidence is now generated (0.0 / 0.5 / 0.9 / 1.0) - a verdict is a verdict at any confidence.
+  C17: tolerance records now carry tolerated-violation patterns and realistic violation texts; the system-level check applies the one-step rule to `inspect()`.
+* **Shapes the generator under-produced.** C16: wires are generated against a random topological order (producers declared after consumers, parallel wires from one
+  producer). C02: string literals with runs of blanks, tabs, NBSP and other Unicode spaces. C03: tools requested as an argument of another tool, inside arithmetic and
+  inside a comparison. C08: 40 % of the histories start by tripping the breaker and waiting out the timeout so that probes are common.
+* **One oracle bug found on the way** (no registered run was affected): C02 compared complex NaN results with `==`; now component-wise with NaN == NaN.
+
+After these changes all forty seeded changes are detected by the quick tier (table above; `python3 tools/run_mutants.py --seeded` re-runs them).
+"""
+
+
 def sh(cmd):
     return subprocess.run(cmd, shell=True, capture_output=True, text=True).stdout
 
@@ -95,7 +116,7 @@ def main():
                 sig = line.split(";", 1)[1].strip()[:110]
         out.append("| %s | %s | %s | %s | %s |" % (m["name"], m["property"], need.replace("|", "\\|"), "yes" if m.get("confirmed") else "NO",
                                                     ("%s tier - `%s`" % (det, sig.replace("|", "/"))) if det else "**missed**"))
-    out += ["", E]
+    out += ["", ADDITIONS, E]
     p = os.path.join(HERE, "DESIGN.md")
     s = open(p).read()
     block = "\n".join(out)
